@@ -132,6 +132,12 @@ class LParser(Parser):
             return ("arraylit", items)
         return Parser.parse_primary(self)
 
+    # ---- BEGIN BT2 hook
+    def stmt_hook(self, stmts):
+        """a subclass may parse one statement here, append it to `stmts` and return True"""
+        return False
+    # ---- END BT2 hook
+
     def parse_block(self):
         self.expect("{")
         st = self.parse_stmts("}")
@@ -178,6 +184,10 @@ class LParser(Parser):
             if v == "#":
                 self.skip_attribute()
                 continue
+            # ---- BEGIN BT2 hook: statement forms of a subclass (tools/rs2lean_bfe.py); the base parser has none
+            if self.stmt_hook(stmts):
+                continue
+            # ---- END BT2 hook
             site = self.i
             label = None
             if k == "label":
@@ -401,6 +411,9 @@ def assigned_outer(stmts, local=None):
                 add(lhs_base(st[1]))
         elif k == "mcallstmt":
             add(lhs_base(st[1][1]))
+        elif k == "callstmt":            # BT2: `f(&mut a, ..);` / `x.m(..);` of rs2lean_bfe.py: st[2] = the places written
+            for x in st[2]:
+                add(lhs_base(x))
         elif k == "if":
             for n in assigned_outer(st[2], local):
                 add(n)
@@ -509,9 +522,11 @@ class LoopEmitter(NatEmitter):
         self.reserved = set(LEAN_RESERVED) | {v[0] for v in fns.values()} | {v[0] for v in pfns.values()}
         self.self_ty_override = None      # type of `Self` inside an impl of a newtype-over-array struct
 
+    ARRAY_FIELDS = ("values",)      # BT2: field names of newtype structs over an array (a subclass may add some)
+
     def array_base(self, e, env):
         """`x` or `x.values` for a variable of array type -> (lean term, elem type, ok)"""
-        if e[0] == "fieldn" and e[2] == "values":
+        if e[0] == "fieldn" and e[2] in self.ARRAY_FIELDS:
             e = e[1]
         while e[0] in ("deref",):
             e = e[1]
@@ -620,7 +635,7 @@ class LoopEmitter(NatEmitter):
             if env[n][0] is None:
                 raise Unsupported(f"use of possibly uninitialised variable {n}")
             return env[n][0], self.resolve(env[n][1]), None
-        if k == "fieldn" and e[2] == "values":
+        if k == "fieldn" and e[2] in self.ARRAY_FIELDS:
             t, ety, _ = self.array_base(e, env)
             return t, ("array", ety), None
         if k == "index":
@@ -818,6 +833,19 @@ class Ctl:
 
 
 class FnTranslator:
+    # ---- BEGIN BT2 hooks: classes used for parsing / emitting, overridden by tools/rs2lean_bfe.py
+    EMITTER = None      # set to LoopEmitter below the class
+    PARSER = LParser
+    SUPPORTS_INOUT = False
+
+    def prepare(self, stmts):
+        """AST pass after parsing (identity here)"""
+        return stmts
+
+    def adjust_result(self):
+        """result type of functions with `&mut` parameters other than the base case `fn f(&mut self)` (nothing here)"""
+    # ---- END BT2 hooks
+
     def __init__(self, lname, rust_name, params, ret_ty_ast, body_toks_src, consts, fns, pfns, fuel, rel,
                  self_ty=None, mut_self=False):
         self.mut_self = mut_self
@@ -827,7 +855,7 @@ class FnTranslator:
         self.params = params
         self.ret_ast = ret_ty_ast
         self.src = body_toks_src
-        self.em = LoopEmitter(consts, fns, pfns, rust_name)
+        self.em = (self.EMITTER or LoopEmitter)(consts, fns, pfns, rust_name)
         self.em.self_ty_override = self_ty
         self.fuel = fuel
         self.rel = rel
@@ -859,10 +887,11 @@ class FnTranslator:
 
     # ---- the function
     def translate(self):
-        ps = LParser(tokenize(self.src))
+        ps = self.PARSER(tokenize(self.src))
         stmts = ps.parse_stmts("")
         if ps.peek()[0] != "eof":
             raise Unsupported(f"trailing tokens {ps.peek()}")
+        stmts = self.prepare(stmts)      # BT2 hook
         self.stmts = stmts
         # partiality: loops, self recursion, calls of partial functions
         flags = {"loop": False}
@@ -881,6 +910,7 @@ class FnTranslator:
             # `fn f(&mut self)`: the function's result is the final value of `*self`
             self.returns_self = True
             self.rty = dict(self.params)["self"]
+        self.adjust_result()             # BT2 hook
         for attempt in range(12):
             self.em.new_binding = False
             self.em.dirty = False
@@ -960,7 +990,7 @@ class FnTranslator:
     def partial_call(self, e, env):
         """(term : Option rty, rty, ok)"""
         em = self.em
-        name = e[1][0]
+        name = e[1][-1]      # BT2: last path segment (`Self::f(..)`); identical for the single-segment calls of the base subset
         if name == self.rust_name and self.recursive:
             lname, ptys, rty = f"{self.rec_name} fuel", [t for _, t in self.params], self.rty
             okname = f"{self.rec_name}_ok fuel"
@@ -1467,7 +1497,11 @@ class FnTranslator:
         if not (ity in INT_TYPES or is_ivar(ity) or ity == "int?"):
             raise Unsupported("range over non-integers")
         if ity == "int?":
-            em.dirty = True
+            # BT2: both bounds are unsuffixed literals (`for i in 0..8`): the loop variable gets the type variable of this
+            # `for` site, bound by its uses in the body (the translation is re-run until nothing new is bound)
+            ity = em.resolve(("ivar", site))
+            if is_ivar(ity):
+                em.dirty = True
         if var in assigned_outer(body, ()):
             raise Unsupported("assignment to the loop variable")
         S = [n for n in self.env_order(env) if n in set(assigned_outer(body, {var})) and n != var]
@@ -1592,8 +1626,9 @@ class FnTranslator:
 # driver
 # --------------------------------------------------------------------------------------------------------
 
-def parse_params(text, em, self_ty=None):
-    """[(name, type)], mut_self?"""
+def parse_params(text, em, self_ty=None, inouts=None):
+    """[(name, type)], mut_self?   (BT2: names of `x: &mut T` parameters are appended to `inouts` when a list is given,
+    otherwise such a parameter is refused)"""
     out = []
     mut_self = False
     ps = LParser(tokenize(text))
@@ -1612,9 +1647,16 @@ def parse_params(text, em, self_ty=None):
             if amp:
                 raise Unsupported("parameter pattern")
             ps.expect(":")
+            # ---- BEGIN BT2: `&mut T` parameters, parameter types of a subclass emitter
+            if ps.peek()[1] == "&" and ps.peek(1)[1] == "mut":
+                if inouts is None:
+                    raise Unsupported("`&mut` parameter")
+                inouts.append(n)
             ty = em.tyname(ps.parse_type())
-            if not (ty in INT_TYPES or ty == "bool" or (self_ty is not None and ty == self_ty)):
+            if not (ty in INT_TYPES or ty == "bool" or (self_ty is not None and ty == self_ty)
+                    or getattr(em, "param_type_ok", lambda t: False)(ty)):
                 raise Unsupported(f"parameter type {ty}")
+            # ---- END BT2
             out.append((n, ty))
         if not ps.accept(","):
             break
@@ -1634,19 +1676,30 @@ def parse_ret(text, em):
 
 
 def translate_fn(src, rust_name, lname, rel, consts, fns, pfns, fuel=DEFAULT_FUEL, after=None, self_ty=None,
-                 generic=None):
+                 generic=None, translator_cls=None, info=None):
     """returns (lean text, param types, result type, partial?)
-    self_ty: type of `Self` (impl of a newtype over an array); generic: name of a `const N: usize` parameter of the impl,
-    which becomes the first parameter of the Lean definition"""
+    self_ty: type of `Self` (impl of a newtype over an array); generic: name of a `const N: usize` parameter of the impl
+    (BT2: or a list of such names), which become the first parameters of the Lean definition;
+    BT2: translator_cls = subclass of FnTranslator (tools/rs2lean_bfe.py), info = dict that receives `outs` (indices of the
+    `&mut` parameters), `has_ret`, `method`"""
+    cls = translator_cls or FnTranslator
     params_text, ret_text, body = find_fn(src, rust_name, after)
-    probe = LoopEmitter(consts, fns, pfns, rust_name)
+    probe = (cls.EMITTER or LoopEmitter)(consts, fns, pfns, rust_name)
     probe.self_ty_override = self_ty
-    params, mut_self = parse_params(params_text, probe, self_ty)
-    if generic:
-        params = [(generic, "usize")] + params
+    inouts = [] if cls.SUPPORTS_INOUT else None
+    params, mut_self = parse_params(params_text, probe, self_ty, inouts)
+    generics = [generic] if isinstance(generic, str) else list(generic or [])
+    params = [(g, "usize") for g in generics] + params
     ret_ast = parse_ret(ret_text, probe)
-    tr = FnTranslator(lname, rust_name, params, ret_ast, body, consts, fns, pfns, fuel, rel, self_ty, mut_self)
+    tr = cls(lname, rust_name, params, ret_ast, body, consts, fns, pfns, fuel, rel, self_ty, mut_self)
+    tr.inouts = inouts or []
     text = tr.translate()
+    if info is not None:
+        names = [n for n, _ in params]
+        info["outs"] = [names.index(n) for n in names if n in tr.inouts or (n == "self" and mut_self)]
+        info["has_ret"] = ret_ast is not None
+        info["method"] = bool(names) and "self" in names and names.index("self") == len(generics)
+        info["generics"] = len(generics)
     return text, [t for _, t in params], tr.em.resolve(tr.rty), tr.partial
 
 
@@ -1735,6 +1788,14 @@ def run(status, changed, fns):
     tfns = dict((k, v) for k, v in fns.items() if v is not None)
     run_group(status, changed, "MmrLoops", sa_rel, ["TF.Gen.MmrIndex"],
               [(ln, rn, fuel, sa_rel, {}) for ln, rn, fuel in MMR_LOOP_FUNCTIONS], read_src, tfns, {})
+
+    # ---- BEGIN BT2 hook: BFieldElement / Tip5 functions (tools/rs2lean_bfe.py)
+    try:
+        import rs2lean_bfe
+        rs2lean_bfe.run(status, changed, fns, read_src)
+    except Exception as ex:      # never fatal for the other groups; recorded as a refusal
+        status["failed"]["loops bfe"] = f"loops: internal: {type(ex).__name__}: {ex}"
+    # ---- END BT2 hook
 
     u_rel = "twenty-first/src/amount/u32s.rs"
     arr = ("array", "u32")
